@@ -274,8 +274,98 @@ fn c10_codec(ctx: &mut Ctx) {
     });
 }
 
+/// FINGERPRINT that is not the last attribute ("misplaced"): the encoder's value must still be
+/// the CRC of the message up to it with the length field ending at it, that value validates, and
+/// the value a sender gets by leaving the whole datagram's length in the header does not.
+fn c10_misplaced(ctx: &mut Ctx) {
+    let cfg = GenCfg { max_blob: 24 };
+    let n = ctx.n(3_000, 200_000);
+    ctx.cases("codec-misplaced", n, |ctx, case, rng| {
+        let nattrs = rng.below(3) as usize;
+        let mut attrs: Vec<LAttr> = (0..nattrs)
+            .map(|_| {
+                let k = rng.usize_below(gen::ORDINARY_KINDS);
+                gen::attr_of_kind(rng, k, &cfg)
+            })
+            .collect();
+        let tb = [4u8, 5, 6, 7][(case % 4) as usize];
+        attrs.extend(gen::tail(tb));
+        let first_fp = attrs.len() - 1;
+        // what follows the FINGERPRINT: ordinary attributes and/or another FINGERPRINT
+        let shape = rng.below(4);
+        if shape != 1 {
+            for _ in 0..1 + rng.below(2) {
+                let k = rng.usize_below(gen::ORDINARY_KINDS);
+                attrs.push(gen::attr_of_kind(rng, k, &cfg));
+            }
+        }
+        if shape >= 1 && shape <= 2 {
+            attrs.push(LAttr::Fingerprint);
+        }
+        let key_spec = if tb & 3 != 0 { Some(gen::key_spec(rng)) } else { None };
+        let m = LMsg { method: gen::method(rng), class: rng.below(4) as u8, txid: gen::txid(rng), attrs, key: key_spec.clone() };
+        let Ok(Ok(lib_msg)) = guarded(|| bridge::to_lib_msg(&m)) else { return };
+        let need = 20 + wire::encoded_attr_bytes(&m);
+        let bytes = match encode(&lib_msg, need, 0) {
+            Ok(Ok((b, n))) => b[..n].to_vec(),
+            Ok(Err(_)) => {
+                ctx.count("codec-misplaced.encoder-refused");
+                return;
+            }
+            Err(p) => {
+                report_panic(ctx, "encode-misplaced", &p, witness(&m, None));
+                return;
+            }
+        };
+        let Ok(raw) = wire::parse(&bytes) else { return };
+        if raw.attrs.len() != m.attrs.len() || raw.attrs[first_fp].typ != wire::T_FINGERPRINT {
+            return;
+        }
+        let fp = &raw.attrs[first_fp];
+        let good = wire::fingerprint_value(&bytes, fp.offset).to_be_bytes();
+        if fp.value != good {
+            ctx.violation("c10:encoded-misplaced-fingerprint-not-rfc-crc", "first FINGERPRINT (others follow it) is not CRC-32(message up to it, length ending at it) xor 0x5354554e".into(), witness(&m, Some(&bytes)));
+            return;
+        }
+        let validate_first = |b: &[u8]| -> Result<Option<bool>, crate::ctx::PanicInfo> {
+            let b = b.to_vec();
+            guarded(move || {
+                let Ok((dm, _)) = decoder(Some(0), None).decode(&b) else { return None };
+                for a in dm.attributes() {
+                    if let StunAttribute::Fingerprint(f) = a {
+                        return stun_rs::get_input_text::<Fingerprint>(&b).map(|input| f.validate(&input));
+                    }
+                }
+                None
+            })
+        };
+        match validate_first(&bytes) {
+            Ok(Some(true)) => ctx.count("c10.misplaced-rfc-value-validates"),
+            Ok(other) => ctx.violation("c10:encoder-output-with-misplaced-fingerprint-does-not-validate", format!("get_input_text + validate on the encoder's own output: {:?}", other), witness(&m, Some(&bytes))),
+            Err(p) => report_panic(ctx, "validate-misplaced", &p, witness(&m, Some(&bytes))),
+        }
+        // the value computed without adjusting the length field
+        let whole = (crate::refstun::hash::crc32(&bytes[..fp.offset]) ^ 0x5354_554e).to_be_bytes();
+        if whole != good {
+            let mut t = bytes.clone();
+            t[fp.offset + 4..fp.offset + 8].copy_from_slice(&whole);
+            match fp_accepted(&t, None) {
+                Ok((false, false)) => ctx.count("c10.misplaced-whole-length-crc-rejected"),
+                Ok((d, v)) => ctx.violation(
+                    &format!("c10:fingerprint-over-unadjusted-length-accepted:{}", if d { "decoder" } else { "validate" }),
+                    format!("a FINGERPRINT followed by other attributes and computed with the whole datagram's length is accepted (decoder={}, validate={})", d, v),
+                    witness(&m, Some(&t)),
+                ),
+                Err(p) => report_panic(ctx, "validate-misplaced-whole", &p, witness(&m, Some(&t))),
+            }
+        }
+        ctx.eval(Some(fnv64(&bytes)));
+    });
+}
+
 pub fn run_c10(ctx: &mut Ctx) {
     c10_codec(ctx);
+    c10_misplaced(ctx);
     let p = Profile {
         steps: (40, 140),
         max_concurrent: 3,
